@@ -984,7 +984,14 @@ func (vc *VC) modsOfCall(x ssa.CallInstruction, ms *modSet, depth int, fr *Frame
 			ms.vars["$alloc"] = true
 		case "copy":
 			if st, ok := c.Args[0].Type().Underlying().(*types.Slice); ok {
-				ms.vars[vc.elemVar(st.Elem())] = true
+				if isAggregate(st.Elem()) {
+					flds, _ := vc.flatFieldVars(st.Elem())
+					for _, hv := range flds {
+						ms.vars[hv] = true
+					}
+				} else {
+					ms.vars[vc.elemVar(st.Elem())] = true
+				}
 			}
 		case "delete":
 			mt := c.Args[0].Type().Underlying().(*types.Map)
